@@ -9,6 +9,7 @@ import GlareModel.Core.Csv
 import GlareModel.Core.Rle
 import GlareModel.Core.CatalogRun
 import GlareModel.Core.Collection
+import GlareModel.Core.Tokens
 
 /-! `gmodel`: line-protocol driver. Reads `case <n> <component> ...` lines on stdin and
 prints `out <n> ...` lines computed by the code-shaped model. -/
@@ -307,6 +308,28 @@ def runCollection (args : List String) : String :=
     | _, _ => "bad-case"
   | _ => "bad-case"
 
+/-- `case N tok <hex utf8>`: token stream of the tokenizer model. -/
+def runTok (args : List String) : String :=
+  match args with
+  | [h] =>
+    match utf8OfHex h with
+    | none => "bad-case"
+    | some cs =>
+      let hexs (v : List Char) : String := hexOfChars v
+      match Tokens.tokenize cs with
+      | none => "no-fuel"
+      | some (.error c) => s!"err {c.toNat}"
+      | some (.ok ts) =>
+        let depth := Tokens.parenDepth ts 0 0
+        s!"ok depth={depth} " ++ " ".intercalate (ts.map fun t => match t with
+          | .word v q => (if q then "Q:" else "W:") ++ hexs v
+          | .str v => "S:" ++ hexs v
+          | .num v => "N:" ++ hexs v
+          | .ws => "_"
+          | .comment v => "C:" ++ hexs v
+          | .sym n => "Y:" ++ n)
+  | _ => "bad-case"
+
 def step (line : String) : Option String :=
   -- `case N sem <payload>`: the payload keeps its spaces
   match (line.trimAscii.toString.splitOn " ") with
@@ -322,6 +345,7 @@ def step (line : String) : Option String :=
   | "case" :: n :: "cast" :: args => some s!"out {n} {runCast args}"
   | "case" :: n :: "like" :: args => some s!"out {n} {runLike args}"
   | "case" :: n :: "rle" :: args => some s!"out {n} {runRle args}"
+  | "case" :: n :: "tok" :: args => some s!"out {n} {runTok args}"
   | "case" :: n :: "collection" :: args => some s!"out {n} {runCollection args}"
   | "case" :: n :: "csv" :: args => some s!"out {n} {runCsv args}"
   | "case" :: n :: "csvsample" :: args => some s!"out {n} {runCsv args true}"
